@@ -218,6 +218,10 @@ type Conn struct {
 	// It is reset as soon as we receive a packet from the peer.
 	keepAlivePingSent bool
 	keepAliveInterval time.Duration
+	// [UQUIC] advertisedIdleTimeout is the max_idle_timeout a spec-driven client put on the wire
+	// (0: none advertised, or not a spec-driven client: then Config.MaxIdleTimeout is what was sent).
+	// It can be smaller than the idle timeout this connection enforces, see configCoveringSpec.
+	advertisedIdleTimeout time.Duration
 
 	datagramQueue *datagramQueue
 
@@ -2463,6 +2467,11 @@ func (c *Conn) applyTransportParameters() {
 	keepAliveIdleTimeout := c.idleTimeout
 	if params.AdvertisedMaxIdleTimeout > 0 {
 		keepAliveIdleTimeout = min(keepAliveIdleTimeout, params.AdvertisedMaxIdleTimeout)
+	}
+	// [UQUIC] The peer also takes the idle timeout WE advertised into account (it uses the minimum of
+	// both values, RFC 9000, Section 10.1). A spec may advertise less than this connection enforces.
+	if c.advertisedIdleTimeout > 0 {
+		keepAliveIdleTimeout = min(keepAliveIdleTimeout, c.advertisedIdleTimeout)
 	}
 	c.keepAliveInterval = min(c.config.KeepAlivePeriod, keepAliveIdleTimeout/2)
 	c.streamsMap.HandleTransportParameters(params)
